@@ -118,8 +118,10 @@ PROPS["C07"] = _e1({
             "f64, synthetic types, AmountT) in both back-ends: name(), symbol(), si_prefix(), scale() against the "
             "independently written definition chains (Decimal: exact value; f64: the correctly rounded double; "
             "non-terminating definitions: 1e-15 relative), reference unit = scale one and named by both REF_UNIT "
-            "constants, and all ordered pairs of SI-prefixed units of a quantity for S_u/S_v = 10^(e_u-e_v). "
-            "states = units, transitions = accessor calls + prefix pairs",
+            "constants, and all ordered pairs of SI-prefixed units of a quantity for S_u/S_v = 10^(e_u-e_v); the documented "
+            "upper-snake-case constant of every catalogue / astronomical unit denotes that very unit (compile-time probe per "
+            "constant, shared with C09). states = units, transitions = accessor calls + prefix pairs",
+    "extra": lambda tier: e2_c09.probe(tier, "C07"),
     "floors": {"quick": {"types": 26, "catalogue_units": 109, "exact_scale_checks": 150, "prefix_pairs": 200,
                          "ref_unit_checks": 23}},
 })
